@@ -86,7 +86,7 @@ def run(name, checks, tier='quick'):
     results = {}
     try:
         for c in checks:
-            rc, out = sh(f'VERIF_EVIDENCE_DIR=/tmp/seed-evidence ./check {c} --tier {tier}', cwd=VERIF, timeout=7200)
+            rc, out = sh(f'VERIF_EVIDENCE_DIR=/tmp/seed-evidence timeout 900 ./check {c} --tier {tier}', cwd=VERIF, timeout=1000)
             v = [l for l in out.split('\n') if l.startswith('VIOLATION') or l.startswith('HARNESS') or l.startswith('[')]
             results[c] = {'exit': rc, 'lines': v[-4:]}
             print(c, 'exit', rc, *v[-3:], sep='\n   ')
